@@ -256,11 +256,63 @@ def located_part(report, rng, tier):
     return len(cases), stats
 
 
+def spans_part(report, rng, tier):
+    """Every span the real parser attaches to the syntax tree (expressions and sub-expressions, declared
+    names, declarations, assignments, registers, banks) against the spanned model parser, whose spans
+    the theorems C14_spans_* are about."""
+    import buildcheck, translate
+    n = 150 if tier == "quick" else 2500
+    texts = []
+    for i in range(n):
+        r = rng.random()
+        if r < 0.45:
+            stmts = []
+            for _ in range(rng.randint(1, 6)):
+                tmpl, _k = rng.choice(FAULTS)
+                if "never_closed" in tmpl or "$" in tmpl or "@" in tmpl:
+                    continue
+                stmts.append(expand(rng, tmpl, plain=False)[0])
+            text = rng.choice(["\n", " ", "\r\n", "\n\n# c\n"]).join(stmts) + rng.choice(["", "\n", " "])
+        elif r < 0.8:
+            g = gen.ProgGen(rng, n_wires=rng.randint(1, 5), depth=rng.randint(1, 3), allow_div=True)
+            base = g.build()
+            text = "".join(rng.choice(TRIVIA + ["\n", " // \u00e9\n"]) if ch == " " and rng.random() < 0.5 else ch for ch in base)
+        else:
+            env = [("a", 8, False), ("b", 8, False), ("c4", 4, False), ("f", 1, False), ("K9", None, True), ("wide", 64, False)]
+            e = gen.ExprGen(rng, env).gen(rng.choice([8, 4, 1, None, 64]), rng.randint(1, 4))
+            body = gen.to_text(e, rng)
+            text = rng.choice(["wire \u00e9 : 8 , q:4;", "const K=%s , L = ( %s );" % (body, body), "register xY { a : 8 = %s ; b:1=0; }" % body, "x = y = z = %s;" % body, ""]) + \
+                   " w = " + body + rng.choice([";", " ;", ""])
+        if len(text.encode()) < 1200:
+            texts.append(text)
+    li = ["s%d parse %s 1" % (i, lib.hexs(t)) for i, t in enumerate(texts)]
+    lm = ["s%d psp %s" % (i, lib.hexs(t)) for i, t in enumerate(texts)]
+    impl, model = lib.run_cases(lib.build_harness("dev"), li), lib.run_cases(lib.build_driver(), lm)
+
+    def _st(blk):
+        return [buildcheck.norm(translate.sexp_parse(y[5:])) if y.startswith("stmt ") else ("err" if y.startswith("err") else y) for y in blk]
+    nspans = accepted = 0
+    for i, t in enumerate(texts):
+        a, b = _st(impl.get("s%d" % i, ["MISSING"])), _st(model.get("s%d" % i, ["MISSING"]))
+        if a and a[0] != "err":
+            accepted += 1
+            nspans += sum(str(x).count("@") for x in a)
+        if a != b:
+            report.violation("span-differs-from-model", "the parser and the spanned model parser attach different spans (or read the text differently): %s"
+                             % lib.first_diff([str(x) for x in a], [str(x) for x in b])[:200],
+                             {"text": t, "impl": [str(x)[:300] for x in a[:6]], "model": [str(x)[:300] for x in b[:6]]})
+    return len(texts), accepted, nspans
+
+
 def check(report, tier, seed):
     rng = random.Random(seed)
     n1, spec_checked = direct_part(report, rng, tier)
     n2, stats = located_part(report, rng, tier)
-    report.coverage["evaluations"] = n1 + n2
+    n3, n3acc, nspans = spans_part(report, rng, tier)
+    stats["span_texts"] = n3
+    stats["span_texts_accepted"] = n3acc
+    stats["spans_compared"] = nspans
+    report.coverage["evaluations"] = n1 + n2 + n3
     report.coverage["distinct_nontrivial"] = spec_checked + sum(stats.values())
     report.coverage["exhaustive"] = True
     report.coverage["rule"] = ("show_region on every text of length <= %d over the alphabet a, blank, LF, CR, e-acute, =, heart (12 sampled offset pairs each, "
